@@ -27,7 +27,7 @@ RULE = ('program = set of 1-3 real Timer components (interval from {0, 1/2, 1, 5
         'distinct = distinct (program, environment script)')
 ASSUMPTIONS = [
     'virtual clock on a dyadic grid; TIMEOUT patched to 1/8 so that all arithmetic stays exact',
-    'the idle wait is the built-in fallback (pollers share the same generate_events budget protocol, see C03/C10)',
+    'idle mechanisms: the built-in fallback wait and, for single-timer programs, the blocking call of Select, Poll and EPoll (virtual select module)',
     'a spy on the Timer instance attribute `fire` records when the timer fires (instance attribute, no source change)',
     'absolute datetime deadlines count at whole-second resolution, as the statement says',
 ]
@@ -57,6 +57,49 @@ class VEvent:
         return w.idle_wait(timeout)
 
 
+class _VPoll:
+    def __init__(self, real, unit):
+        self._real = real
+        self._unit = unit      # poll(): milliseconds, epoll(): seconds
+
+    def __getattr__(self, name):
+        return getattr(self._real, name)
+
+    def poll(self, timeout=None, *a):
+        ready = self._real.poll(0)
+        w = CUR
+        if ready or w is None or (timeout is not None and timeout == 0):
+            return ready
+        t = None if (timeout is None or timeout < 0) else timeout / self._unit
+        w.idle_wait(t)
+        return self._real.poll(0)
+
+
+class VSelect:
+    """Double for the `select` module in circuits.core.pollers: a blocking call advances the virtual clock."""
+
+    def __getattr__(self, name):
+        import select as real
+        return getattr(real, name)
+
+    def select(self, r, w_, x, timeout=None):
+        import select as real
+        res = real.select(r, w_, x, 0)
+        w = CUR
+        if any(res) or w is None or (timeout is not None and timeout == 0):
+            return res
+        w.idle_wait(timeout)
+        return real.select(r, w_, x, 0)
+
+    def poll(self):
+        import select as real
+        return _VPoll(real.poll(), 1000.0)
+
+    def epoll(self, *a, **k):
+        import select as real
+        return _VPoll(real.epoll(*a, **k), 1.0)
+
+
 def vtime():
     return CUR.clock.now if CUR is not None else doubles.VirtualClock.BASE
 
@@ -73,6 +116,8 @@ def patch():
     manager_mod.time = vtime
     manager_mod.TIMEOUT = 0.125
     helpers_mod.Event = VEvent
+    import circuits.core.pollers as pollers_mod
+    pollers_mod.select = VSelect()
     _PATCHED = True
 
 
@@ -90,6 +135,10 @@ class World:
         self.bad = []
         self.timers = {}
         self.root = BaseComponent()
+        self.poller = None
+        if program.get('mech', 'fallback') != 'fallback':
+            import circuits.core.pollers as pollers_mod
+            self.poller = getattr(pollers_mod, program['mech'])().register(self.root)
         self.sink = BaseComponent().register(self.root)
         self.horizon_t = 5.0
         self.horizon_iter = 60
@@ -283,6 +332,20 @@ def execute(program, prefix):
     except BaseException as exc:  # noqa: BLE001
         w.result = 'raised %r' % (exc,)
     CUR = None
+    if w.poller is not None:
+        import os
+        for fd in (getattr(w.poller, '_ctrl_recv', None), getattr(w.poller, '_ctrl_send', None)):
+            if isinstance(fd, int):
+                try:
+                    os.close(fd)
+                except OSError:
+                    pass
+        p = getattr(w.poller, '_poller', None)
+        if p is not None and hasattr(p, 'close'):
+            try:
+                p.close()
+            except Exception:  # noqa: BLE001
+                pass
     return w
 
 
@@ -338,6 +401,12 @@ def programs(tier):
     for s in singles:
         for chain, task in ((False, False), (True, False), (False, True)):
             yield {'timers': [s], 'chain': chain, 'task': task}, k1
+    # the same budget protocol through each poller's blocking call (seconds for select/epoll, milliseconds for poll)
+    for mech in ('Select', 'Poll', 'EPoll'):
+        for s in singles:
+            if s['act'] and s['act'][0] == 'reset' and tier == 'quick':
+                continue
+            yield {'timers': [s], 'chain': False, 'task': s['interval'] == 1.0, 'mech': mech}, (1 if tier == 'quick' else 2)
     small = [s for s in timer_specs(False) if s['at'] == 0.0 or s['interval'] in (0.5, 1.0)]
     menu = small if tier != 'quick' else [s for s in small if s['interval'] != 2.5 or not s['persist']]
     for a, b in itertools.combinations_with_replacement(range(len(menu)), 2):
